@@ -22,7 +22,13 @@ MAX_SHRUNK_GROUPS = 8  # a change that breaks everything yields dozens of signat
 
 
 def log(*a):
-    print(*a, flush=True)
+    try:
+        print(*a, flush=True)
+    except BrokenPipeError:  # the reader went away (e.g. `| head`): keep going, the exit code still counts
+        try:
+            sys.stdout = open(os.devnull, 'w')
+        except OSError:
+            pass
 
 
 def load_known(prop):
